@@ -186,3 +186,26 @@ register(
     ],
     probes=["row_in_unseen_bucket", "single_row_batch", "restart_pickle", "restart_cwfp", "schedule_switch_inside_predict"],
 )
+
+register(
+    "C15",
+    quick=3000,
+    thorough=100000,
+    level="exploration",
+    rule=(
+        "one run = one wrapper scenario: SkBaseTransformLearner (8 wrapped model kinds x method None / named / "
+        "callable), SkBaseTransformStacking (1..4 members: learners, already wrapped learners, transformers) or "
+        "TransferTransformer (7 pre-fitted inner kinds x method x copy_estimator x trainable) driven through a "
+        "generated history of fit / transform / set_params(model=) / set_params(method=) / clone / refit on other "
+        "data / fit with the inner peer's fit failing (fault plan); reference = independently built and directly "
+        "fitted models (hstack for stacking), recording peers for the training data, pickle+prediction digests of "
+        "the original estimator for the frozen / copy clauses; non-trivial = every run; distinct = distinct "
+        "(wrapper, inner kinds, method, flags, fault set)"
+    ),
+    assumptions=[
+        "wrapped models are peers (recording subclasses of scikit-learn estimators with unchanged signatures)",
+        "outputs compared with rtol 1e-9 / atol 1e-12",
+        "the 'chosen method' is the one last configured by the user (constructor or set_params), or the wrapper's reported default",
+    ],
+    probes=["model_replaced", "method_replaced", "inner_fit_failed"],
+)
